@@ -170,6 +170,12 @@ Proof.
     apply (IH _ t x R' Hb). rewrite <- H, skipn_app. rewrite (skipn_all2 (hm m)) by lia. reflexivity.
 Qed.
 
+Lemma type_at_in ms : forall E t, type_at ms E = Some t -> In t (map fst ms).
+Proof.
+  induction ms as [|m r IH]; intros E t H; [discriminate|]. cbn [type_at] in H. cbn [map In].
+  destruct (E =? 0)%nat; [injection H as <-; left; reflexivity|]. destruct (E <? length (hm m))%nat; [discriminate|]. right. exact (IH _ _ H).
+Qed.
+
 Lemma stf_0 ms : stf ms 0 = (0, []). Proof. destruct ms; reflexivity. Qed.
 Lemma boundary_end ms : boundary ms (length (stream ms)) = true.
 Proof.
@@ -225,6 +231,23 @@ Proof.
   unfold handle_handshake_finished. destruct (ts_decryptor s) as [d|]; [|reflexivity].
   match goal with |- context [if ?c then _ else _] => destruct c end; [|reflexivity].
   destruct (decrypt C d r srv) as [[d' pt]|]; reflexivity.
+Qed.
+
+(* the function, unfolded *)
+Lemma plain_record_eq s r srv t x' : ts_server_cc s || ts_client_cc s = false -> r_body r = t :: x' ->
+  handle_tls_handshake_record C tbl parts keylog s r srv =
+  let st := hsst srv s in let st' := hs_step st (r_body r) in let s1 := set_pending s srv (fst st') (snd st') in
+  if (0 <? fst st) || (0 <? len (snd st)) then Ok (s1, [])
+  else if t =? 1 then Ok (handle_tls_client_hello s1 r, [])
+  else if t =? 2 then rmap (fun c => (c, [])) (handle_tls_server_hello C tbl parts keylog s1 r)
+  else Ok (handle_handshake_finished C s1 r srv).
+Proof.
+  intros Hcc Hb. unfold handle_tls_handshake_record. rewrite Hcc, Hb. rewrite <- Hb. reflexivity.
+Qed.
+
+Lemma finished_inert s r srv : ts_server_cc s = false -> ts_client_cc s = false -> handle_handshake_finished C s r srv = (s, []).
+Proof.
+  intros H1 H2. unfold handle_handshake_finished. destruct (ts_decryptor s) as [d|]; [|reflexivity]. rewrite H1, H2. destruct srv; reflexivity.
 Qed.
 
 (* one plaintext handshake record (no ChangeCipherSpec seen yet, non-empty body): the direction's state moves by hs_step, the other
